@@ -1,6 +1,6 @@
 //! Functions used for parsing a TZif file.
 
-use crate::error::parse::TzFileError;
+use crate::error::parse::{ParseDataError, TzFileError};
 use crate::error::TzError;
 use crate::parse::tz_string::parse_posix_tz;
 use crate::parse::utils::{read_chunk_exact, read_exact, Cursor};
@@ -117,12 +117,15 @@ struct DataBlocks<'a, const TIME_SIZE: usize> {
 
 /// Read TZif data blocks
 fn read_data_blocks<'a, const TIME_SIZE: usize>(cursor: &mut Cursor<'a>, header: &Header) -> Result<DataBlocks<'a, TIME_SIZE>, TzFileError> {
+    // A block size which overflows `usize` (possible on 32-bit targets) is necessarily larger than the remaining data
+    let block_size = |count: usize, record_size: usize| count.checked_mul(record_size).ok_or(ParseDataError::UnexpectedEof);
+
     Ok(DataBlocks {
-        transition_times: read_exact(cursor, header.transition_count * TIME_SIZE)?,
+        transition_times: read_exact(cursor, block_size(header.transition_count, TIME_SIZE)?)?,
         transition_types: read_exact(cursor, header.transition_count)?,
-        local_time_types: read_exact(cursor, header.type_count * 6)?,
+        local_time_types: read_exact(cursor, block_size(header.type_count, 6)?)?,
         time_zone_designations: read_exact(cursor, header.char_count)?,
-        leap_seconds: read_exact(cursor, header.leap_count * (TIME_SIZE + 4))?,
+        leap_seconds: read_exact(cursor, block_size(header.leap_count, TIME_SIZE + 4)?)?,
         std_walls: read_exact(cursor, header.std_wall_count)?,
         ut_locals: read_exact(cursor, header.ut_local_count)?,
     })
